@@ -11,6 +11,7 @@ the list of permitted results the specification computed) and counts."""
 import json
 import os
 import random
+import re
 import sys
 import threading
 
@@ -32,7 +33,7 @@ CFG = {
 }
 # the universe of the trace configurations (spec/Trace_Mapping.tla: TDims, TMasks, TClis, TPaths); the init event
 # carries it and TLC refuses a trace whose universe is not the configuration's
-T_DIMS, T_MASKS, T_CLIS = [0, 1, 2], [1, 2, 7], [0, 1, 65535]
+T_DIMS, T_MASKS, T_CLIS = [0, 1, 2], [1, 2, 7, 8], [0, 1, 65535]
 T_PATHS = [[1, 1, 1], [1, 1, 2], [1, 2, 1], [2, 1, 1], [2, 1, 2], [255, 255, 255]]
 TABLE_ACTIONS = ("init", "add", "del", "clear", "setcycle", "clearcycles")
 
@@ -141,6 +142,9 @@ def arg_class(st, before=()):
         return "tok" if arg.get("tok") else "notok"
     if a == "bindtext":
         items = arg.get("items") or []
+        # a number, its separator, a blank: the field behind the separator is left out and the destination ends
+        if re.search(r"[0-9]:[ \t]", arg.get("text") or ""):
+            return "number_sep_blank"
         cl = ["items=%d" % min(len(items), 3)]
         if any(all(f < 0 for f in it) for it in items):
             cl.append("empty_item")
@@ -258,7 +262,7 @@ def gen_history(rng, impl, steps):
              [255, 255, 255, 0], [255, 255, 255, 1], [1, 1, 1, 2], [2, 1, 2, 3]]
     clis = [0, 1, 65535, 2, 300]
     dims = [0, 1, 2, 3]
-    masks = [1, 2, 3, 4, 5, 6, 7]
+    masks = [1, 2, 3, 4, 5, 6, 7, 8, 8, 8, 9, 10, 12, 15]       # every state bit of the header: Init, Step, Fini, Fail
     hist = [{"a": "init", "arg": {"dims": T_DIMS, "masks": T_MASKS, "clis": T_CLIS,
                                   "paths": [x for p in (T_PATHS if impl == "cxx" else []) for x in p]}}]
     if impl == "cxx":       # most paths registered early, so that the table grows
@@ -279,10 +283,15 @@ def gen_history(rng, impl, steps):
         elif impl == "c":
             items = []
             for _ in range(rng.choice([1, 1, 2, 3, 4])):
-                form = rng.choice([[0], [0, 1], [0, 1, 2], [1], [1, 2], [2], [0, 2]])
-                it = [-1] * (max(form) + 1)
+                # fields left out at every position: leading, middle, trailing (a trailing one directly behind a
+                # number and before a blank is the open finding number_sep_blank, decided by the replay: not here)
+                form = rng.choice([[0], [0, 1], [0, 1, 2], [1], [1, 2], [2], [0, 2], [], []])
+                n = (max(form) + 1) if form else rng.choice([2, 3])
+                it = [-1] * n
                 for k in form:
                     it[k] = rng.choice([1, 1, 2, 2, 255, 7])
+                if form and n < 3 and rng.random() < 0.35:
+                    it += [-1] * (3 - n) if n == 1 else []
                 items.append(it)
             gaps = [rng.choice([0, 0, 1])] + [rng.choice([1, 1, 2, 3, 4]) for _ in items[1:]] + [0]
             hist.append({"a": "bindtext", "arg": {"text": render(items, gaps), "cli": rng.choice(clis), "items": items, "gaps": gaps}})
